@@ -190,7 +190,7 @@ def step (st : DState) (line : String) : DState × String :=
         | none => if file.isNone && d != "0" then "-777" else "-"
       (upd a, rcOf r ++ " " ++ toString a.offset ++ " " ++ ds)
     | "W", [_path, flag], some a =>
-      let (ok, file) := createBinFile a (flag == "ok") (2 ^ 40) true
+      let (ok, file) := createBinFile a (flag == "ok" || flag == "stale") (2 ^ 40) true
       (st, (if ok then "0" else "1") ++ " " ++ (match file with
         | none => "nofile"
         | some bs => toHex bs))
